@@ -35,10 +35,12 @@ Example ex4_rt_computed :
 Proof. vm_compute. repeat split. Qed.
 
 (* nesting: 5 levels (deep_nesting warning) and the maximal 99 levels are inside the side condition *)
-Example nest_safe : lex_safe4_doc (d1 (nest 5 n1)) = true /\ lex_safe4_doc (d1 (nest 99 n1)) = true.
-Proof. split; vm_compute; reflexivity. Qed.
-Example nest99_lexes_thm : lex_emit_core4_concl ex_cls (fun _ => false) (d1 (nest 99 n1)).
-Proof. exact (lex_emit_core4 ex_cls (fun _ => false) _ (proj1 nest99) (proj2 nest_safe)). Qed.
+Example nest_safe :
+  lex_safe4_doc (d1 (nest 5 n1)) = true /\ core4_doc (d1 (nest 99 n1)) = true /\ lex_safe4_doc (d1 (nest 99 n1)) = true.
+Proof. repeat split; vm_compute; reflexivity. Qed.
+Definition dnest99 : doc := d1 (nest 99 n1).
+Example nest99_lexes_thm : lex_emit_core4_concl ex_cls (fun _ => false) dnest99.
+Proof. exact (lex_emit_core4 ex_cls (fun _ => false) dnest99 (proj1 (proj2 nest_safe)) (proj2 (proj2 nest_safe))). Qed.
 
 (* ---- regression: the documents of the earlier fragments are inside ------------------------------------------------------------------------ *)
 Example earlier_examples_core4_safe4 :
@@ -88,6 +90,14 @@ Example pattern_map_value_inside :
   match parse_model ex_cls ex2_numcanon (fun _ => false) true (lines_of (emit (fun _ => false) d)) with
   | PRDoc d' reps warns => d' = d /\ reps = [] /\ map wsub warns = [7] | _ => False end.
 Proof. vm_compute. repeat split. Qed.
+
+(* the executable form: every refuted document above is a core4 document whose emitted text the harness check classifies as 2 (shape
+   mismatch or lexer repair) or 3 (lexer error: `null-a` inside the nested list) -- so the side condition of shape_check_core4 cannot be dropped either *)
+Example refuted_docs_shape_check :
+  map (fun d => core4_shape_check ex_cls d (lines_of (emit (fun _ => false) d)))
+      [mapd (lit "true") n1; mapd (lit "vs") n1; mapd (lit "1a") n1; mapd (lit "K") (VStr (lit "true.x"));
+       d1 (VList [n1; VList [VStr (lit "null-a")]]); mapd (lit "K") (VStr [65; 64; 66])] = [2; 2; 2; 2; 3; 2].
+Proof. vm_compute. reflexivity. Qed.
 
 Theorem lex_emit_core4_full_refuted : ~ lex_emit_core4_full.
 Proof.
